@@ -20,12 +20,12 @@ const (
 
 // gfState is what the FaultFunc and the triggers share.
 type gfState struct {
-	mu          sync.Mutex
-	rng         *rand.Rand
-	count       map[string]int
-	fault       func(api string, n int) groupfake.Fault // called with mu held
-	leaveFault  bool
-	killed      bool
+	mu         sync.Mutex
+	rng        *rand.Rand
+	count      map[string]int
+	fault      func(api string, n int) groupfake.Fault // called with mu held
+	leaveFault bool
+	killed     bool
 
 	hb        int32
 	commitReq chan struct{}
@@ -194,11 +194,22 @@ func runGF(sc scen) result {
 		closeDelay = ms(rr(rng, 0, 30))
 		if isG {
 			closeDelay = ms(rr(rng, 0, 10))
+			if rng.Intn(3) != 0 {
+				// the in-memory join takes about a millisecond: slow it down so that Close
+				// lands before it has completed
+				ft.add("broker=slow")
+				st.fault = func(a string, n int) groupfake.Fault {
+					if a == "findcoordinator" || a == "join" || a == "sync" {
+						return groupfake.Fault{Delay: ms(rr(st.rng, 3, 20))}
+					}
+					return groupfake.Fault{}
+				}
+			}
 		}
 	case "blocked-fetch":
 		nrec0, appendDuring = 0, false
 		p.callers = rr(rng, 1, 3)
-		p.kinds = "f"
+		p.kinds = "ffr"
 		wNever, wAfter, wBefore = 1, 0, 0
 		closeDelay = ms(rr(rng, 20, 80))
 	case "racing":
@@ -259,10 +270,26 @@ func runGF(sc scen) result {
 		if api == "fetch" {
 			after = rng.Intn(4)
 		}
-		ft.add("broker=silent")
+		// how: never answered | answered later than the reader waits | connection dropped
+		how := 0
+		if api == "fetch" {
+			how = rng.Intn(3)
+		}
+		if how == 2 {
+			ft.add("broker=drop")
+		} else {
+			ft.add("broker=silent")
+		}
 		ft.add("silent-api=" + apiShort[api])
+		lateBy := 2*maxWait + ms(rr(rng, 10, 100))
 		st.fault = func(a string, n int) groupfake.Fault {
 			if a == api && n > after {
+				switch how {
+				case 1:
+					return groupfake.Fault{Delay: lateBy}
+				case 2:
+					return groupfake.Fault{Drop: 1 + st.rng.Intn(2)}
+				}
 				return groupfake.Fault{Delay: silence}
 			}
 			return groupfake.Fault{}
@@ -390,6 +417,7 @@ func runGF(sc scen) result {
 			return groupfake.Fault{}
 		}
 		e.wd = 25 * time.Second
+		mNever = false // (a call that never returns would cost the long watchdog)
 		p.callers = rr(rng, 0, 2)
 		nrec0 = rr(rng, 3, 10)
 		switch api {
@@ -516,7 +544,7 @@ func runGF(sc scen) result {
 		// the auxiliary Reader is a member from the start
 		auxRd = mkReader(clientV, b.DialFor(clientV))
 		waitOr(ms(600), func() bool { return b.State() == groupfake.StateStable && b.MemberOf(clientV) != "" })
-		e.baseline() // the auxiliary Reader's goroutines are not the ones under test
+		// (no new baseline: the auxiliary Reader is closed before the census as well)
 	}
 	rd := mkReader(clientU, e.cc.wrap(b.DialFor(clientU)))
 	vlogf("scenario %d: mode=%s kind=%s commitmode=%s qcap=%d nrec0=%d parts=%d hb=%v sess=%v reb=%v jb=%v maxWait=%v lag=%v trig=%s closeDelay=%v close2=%q callers=%d ncalls=%d wd=%v",
